@@ -132,8 +132,56 @@ def applyOp (s : SH) : Op → SH
   | .rem xs => removeInterceptor s xs
   | .clear => clearInterceptor s
 
+/-! ### where the list lives: Go slices over backing arrays
+
+    `interceptors` is a `StreamDef[*Interceptor]`, i.e. a Go slice.  The constructor stores the CALLER's variadic slice
+    (`StreamDef(interceptors)`, no copy), so whether the bookkeeping operations ever write into an existing backing array
+    decides whether the caller's slice (and any other instance built from it) can change behind its back.  `Store` is the
+    heap of backing arrays (list length = capacity), `Sl` a slice header.  The current code allocates in every operation:
+    `Append` = `Concat` copies into a fresh array, `RemoveItem` = `Minus` fills a fresh `make([]T, len)`, `Clear` is a fresh
+    empty stream. -/
+
+structure Sl where
+  arr : Nat
+  len : Nat
+deriving DecidableEq, Repr
+
+abbrev Store := List (List Nat)
+
+def readS (st : Store) (sl : Sl) : List Nat := ((st[sl.arr]?).getD []).take sl.len
+
+def allocS (st : Store) (content : List Nat) (len : Nat) : Store × Sl := (st ++ [content], ⟨st.length, len⟩)
+
+/-- `Stream.Append(x)` → `Concat(ToArray(), [x])`: a new array of exactly the total length -/
+def appendS (st : Store) (sl : Sl) (x : Nat) : Store × Sl :=
+  allocS st (readS st sl ++ [x]) ((readS st sl).length + 1)
+
+/-- `Stream.RemoveItem(x)` → `Minus`: `result := make([]T, len(set1))`, filled from the front, `result[:n]` -/
+def minusS (st : Store) (sl : Sl) (x : Nat) : Store × Sl :=
+  let l := readS st sl
+  let r := minus l [x]
+  allocS st (r ++ List.replicate (l.length - r.length) 0) r.length
+
+def addInterceptorS (st : Store) (sl : Sl) (xs : List Nat) : Store × Sl :=
+  xs.foldl (fun a x => appendS a.1 a.2 x) (st, sl)
+
+def removeInterceptorS (st : Store) (sl : Sl) (xs : List Nat) : Store × Sl :=
+  xs.foldl (fun a x => minusS a.1 a.2 x) (st, sl)
+
+def clearInterceptorS (st : Store) (_sl : Sl) : Store × Sl := allocS st [] 0
+
+def applyOpS (a : Store × Sl) : Op → Store × Sl
+  | .add xs => addInterceptorS a.1 a.2 xs
+  | .rem xs => removeInterceptorS a.1 a.2 xs
+  | .clear => clearInterceptorS a.1 a.2
+
 /-! ### line protocol
-    `clients=<n|d|s<k>>,… fail=<ids|-> kind=<error kind> tfail=<d|s<k>,…|-> st=<status> new=c<k>:<ids|->: op ; op …`
+    `clients=<n|d|s<k>>,… fail=<ids|-> kind=<error kind> tfail=<d|s<k>,…|-> st=<status> defs=<ids|->+<spare> new=c<k>:<ids|-|D>: op ; op …`
+    (`defs` = a caller-owned slice of interceptor pointers with `spare` unused capacity; `D` = "pass that slice": `new=c0:D` is
+    `NewSimpleHTTPWithClientAndInterceptors(client, defaults...)`.  Several instances may live in one case: `inst c<k> <ids|D>`
+    creates another one with the WithClient constructor, `instd` / `insta` with `NewSimpleHTTP()` / `NewSimpleAPI(url)` (a
+    fresh `&http.Client{}` each); an op prefixed `@<j>` addresses instance j (default 0).  Generated cases never hand the
+    same client to two instances — that is outside the property.)
     (`kind` = what sort of error failing interceptors / transports return — plain, net.Error Temporary/Timeout,
     context.DeadlineExceeded, ECONNRESET, wrapped …; `st` = the status code the stub transports answer with;
     neither may make a difference, so the model ignores them)
@@ -177,9 +225,18 @@ def tfOf (names : List String) : Tr → Bool := fun t => names.contains t.show
 
 def parseNames (s : String) : List String := if s = "-" ∨ s = "" then [] else s.splitOn ","
 
+structure Inst where
+  s : SH        -- (its `interceptors` field is refreshed from the store before use)
+  sl : Sl
+deriving Repr
+
 structure St where
-  s : SH
+  insts : List Inst
   cs : Clients
+  store : Store
+  dsl : Sl      -- the caller's `defaults` slice
+
+def Inst.sh (st : St) (i : Inst) : SH := { i.s with interceptors := readS st.store i.sl }
 
 def splitCase (line : String) : String × List String :=
   match line.splitOn ": " with
@@ -187,26 +244,62 @@ def splitCase (line : String) : String × List String :=
     (head, ((": ".intercalate rest).splitOn ";").map (fun t => t.trimAscii.toString) |>.filter (· ≠ ""))
   | [] => ("", [])
 
+/-- `defs=<ids|->+<spare>` -/
+def parseDefs (s : String) : List Nat × Nat :=
+  match s.splitOn "+" with
+  | [ids, sp] => (parseIds ids, sp.toNat?.getD 0)
+  | [ids] => (parseIds ids, 0)
+  | _ => ([], 0)
+
+/-- a new instance through `NewSimpleHTTPWithClientAndInterceptors(client c, …)`: `D` aliases the caller's slice,
+    an explicit list is a fresh variadic slice -/
+def newInst (st : St) (c : Nat) (is : String) : St :=
+  let (store, sl) := if is = "D" then (st.store, st.dsl) else
+    let l := parseIds is
+    allocS st.store l l.length
+  let (s, cs) := newSimpleHTTP st.cs c (readS store sl)
+  { st with insts := st.insts ++ [⟨s, sl⟩], cs := cs, store := store }
+
 def initSt (head : String) : St × List Nat × List String :=
   let toks := head.splitOn " "
   let cs : Clients := ((kv toks "clients").splitOn ",").map parseTr
   let fail := parseIds (kv toks "fail")
-  let (c, is) := match (kv toks "new").splitOn ":" with
-    | [c, is] => (clientIdx c, parseIds is)
-    | _ => (0, [])
-  let (s, cs) := newSimpleHTTP cs c is
-  (⟨s, cs⟩, fail, parseNames (kv toks "tfail"))
+  let (dl, spare) := parseDefs (kv toks "defs")
+  let st0 : St := ⟨[], cs, [dl ++ List.replicate spare 0], ⟨0, dl.length⟩⟩
+  let st := match (kv toks "new").splitOn ":" with
+    | [c, is] => newInst st0 (clientIdx c) is
+    | _ => newInst st0 0 "-"
+  (st, fail, parseNames (kv toks "tfail"))
+
+def setInst (st : St) (j : Nat) (i : Inst) : St := { st with insts := st.insts.set j i }
+
+def runOpOn (fail : List Nat) (tfail : List String) (st : St) (j : Nat) (toks : List String) : St × String :=
+  match st.insts[j]? with
+  | none => (st, "noinst")
+  | some i =>
+    let book (r : Store × Sl) : St × String := ({ setInst st j { i with sl := r.2 } with store := r.1 }, "nil")
+    match toks with
+    | ["add", xs] => book (addInterceptorS st.store i.sl (parseIds xs))
+    | ["addd"] => book (addInterceptorS st.store i.sl (readS st.store st.dsl))
+    | ["rem", xs] => book (removeInterceptorS st.store i.sl (parseIds xs))
+    | ["remd"] => book (removeInterceptorS st.store i.sl (readS st.store st.dsl))
+    | ["clear"] => book (clearInterceptorS st.store i.sl)
+    | ["set", c] =>
+      let (s, cs) := setHTTPClient (i.sh st) st.cs (clientIdx c)
+      ({ setInst st j { i with s := s } with cs := cs }, "nil")
+    | ["req", _verb] => (st, showResult (clientDo (behOf fail) (tfOf tfail) (i.sh st) st.cs []))
+    | _ => (st, "bad-op")
 
 def runOp (fail : List Nat) (tfail : List String) (st : St) (op : String) : St × String :=
   match (op.splitOn " ").filter (· ≠ "") with
-  | ["add", xs] => ({ st with s := addInterceptor st.s (parseIds xs) }, "nil")
-  | ["rem", xs] => ({ st with s := removeInterceptor st.s (parseIds xs) }, "nil")
-  | ["clear"] => ({ st with s := clearInterceptor st.s }, "nil")
-  | ["set", c] =>
-    let (s, cs) := setHTTPClient st.s st.cs (clientIdx c)
-    (⟨s, cs⟩, "nil")
-  | ["req", _verb] => (st, showResult (clientDo (behOf fail) (tfOf tfail) st.s st.cs []))
-  | _ => (st, "bad-op")
+  | ["inst", c, is] => (newInst st (clientIdx c) is, "nil")
+  | ["instd"] | ["insta"] =>
+    -- NewSimpleHTTP(): NewSimpleHTTPWithClientAndInterceptors(&http.Client{}) — a fresh client, no interceptors
+    (newInst { st with cs := st.cs ++ [none] } st.cs.length "-", "nil")
+  | t :: rest =>
+    if t.startsWith "@" then runOpOn fail tfail st ((t.drop 1).toString.toNat?.getD 0) rest
+    else runOpOn fail tfail st 0 (t :: rest)
+  | [] => (st, "bad-op")
 
 def handle (line : String) : String :=
   let (head, ops) := splitCase line
@@ -216,9 +309,10 @@ def handle (line : String) : String :=
     (st, o :: acc.2)) (st0, [])
   " | ".intercalate outs.reverse
 
-/-! ### specification-level oracle: the registration list by `Spec.book`, the call log by `Spec.visit`;
-    WHICH underlying transport finally receives the request is not part of the property, so any single
-    transport event with the right request is accepted. -/
+/-! ### specification-level oracle: per instance the registration list by `Spec.book` (the caller's `defaults` are the
+    constant they were created as — no operation may change them), the call log by `Spec.visit` over the instance's OWN
+    list only; WHICH underlying transport finally receives the request is not part of the property, so any single transport
+    event with the right request is accepted. -/
 
 def specEvents (fail : List Nat) (is : List Nat) : List String × String :=
   let r := Spec.visit (behOf fail) (fun _ => false) .dflt is []
@@ -246,23 +340,40 @@ def judge (line impl : String) : String :=
   let toks := head.splitOn " "
   let fail := parseIds (kv toks "fail")
   let tfail := parseNames (kv toks "tfail")
+  let defs := (parseDefs (kv toks "defs")).1
+  let idsOf (s : String) : List Nat := if s = "D" then defs else parseIds s
   let is0 := match (kv toks "new").splitOn ":" with
-    | [_, is] => parseIds is
+    | [_, is] => idsOf is
     | _ => []
   let obs := impl.splitOn " | "
   if impl = "crash" ∨ impl = "hang" then "violation the process died / hung while running the case (unbounded recursion through the chain?)" else
   if obs.length ≠ ops.length then "violation wrong number of observations" else
-  let (_, bad) := (ops.zip obs).foldl (fun (acc : List Nat × List String) oo =>
-    match (oo.1.splitOn " ").filter (· ≠ "") with
-    | ["add", xs] => (Spec.book acc.1 [.add (parseIds xs)], if oo.2 = "nil" then acc.2 else acc.2 ++ [s!"op '{oo.1}' observed '{oo.2}'"])
-    | ["rem", xs] => (Spec.book acc.1 [.rem (parseIds xs)], if oo.2 = "nil" then acc.2 else acc.2 ++ [s!"op '{oo.1}' observed '{oo.2}'"])
-    | ["clear"] => ([], if oo.2 = "nil" then acc.2 else acc.2 ++ [s!"op '{oo.1}' observed '{oo.2}'"])
-    | ["set", _] => (acc.1, if oo.2 = "nil" then acc.2 else acc.2 ++ [s!"op '{oo.1}' observed '{oo.2}'"])
-    | ["req", _] =>
-      let exp := specEvents fail acc.1
-      if obsMatches tfail exp oo.2 then acc
-      else (acc.1, acc.2 ++ [s!"op '{oo.1}' with registered interceptors {acc.1}: observed '{oo.2}', property demands '{" ".intercalate (exp.1 ++ [exp.2])}' (':trace' = any one transport)"])
-    | _ => acc) (is0, [])
+  let (_, bad) := (ops.zip obs).foldl (fun (acc : List (List Nat) × List String) oo =>
+    let toks := (oo.1.splitOn " ").filter (· ≠ "")
+    let (j, toks) := match toks with
+      | t :: rest => if t.startsWith "@" then ((t.drop 1).toString.toNat?.getD 0, rest) else (0, toks)
+      | [] => (0, [])
+    let expectNil (l : List (List Nat)) := (l, if oo.2 = "nil" then acc.2 else acc.2 ++ [s!"op '{oo.1}' observed '{oo.2}'"])
+    match toks with
+    | ["inst", _, is] => expectNil (acc.1 ++ [idsOf is])
+    | ["instd"] | ["insta"] => expectNil (acc.1 ++ [[]])
+    | _ =>
+    match acc.1[j]? with
+    | none => (acc.1, if oo.2 = "noinst" then acc.2 else acc.2 ++ [s!"op '{oo.1}' observed '{oo.2}'"])
+    | some l =>
+      let upd (l' : List Nat) := expectNil (acc.1.set j l')
+      match toks with
+      | ["add", xs] => upd (Spec.book l [.add (parseIds xs)])
+      | ["addd"] => upd (Spec.book l [.add defs])
+      | ["rem", xs] => upd (Spec.book l [.rem (parseIds xs)])
+      | ["remd"] => upd (Spec.book l [.rem defs])
+      | ["clear"] => upd []
+      | ["set", _] => upd l
+      | ["req", _] =>
+        let exp := specEvents fail l
+        if obsMatches tfail exp oo.2 then acc
+        else (acc.1, acc.2 ++ [s!"op '{oo.1}' on instance {j} with registered interceptors {l}: observed '{oo.2}', property demands '{" ".intercalate (exp.1 ++ [exp.2])}' (':trace' = any one transport)"])
+      | _ => acc) ([is0], [])
   match bad with
   | [] => "allowed call logs are what the property prescribes (model differs, e.g. in which transport is used)"
   | b :: _ => "violation " ++ b
